@@ -8,12 +8,13 @@
                           every step with the name it uses; the bind step as bind:<refuse>:<name>
      S                 -> sizes: sun_path, strlcpy size, bound of the length test, longest lock name
      C k conf.. ; tok.. ; name..  -> byte-string model: k processes, conf = hexsock,hexpid,hexseed each; schedule as
-                          for R; then for every queried name (hex): <name>=<-|reg|sock>:<listener>:<lock holder> *)
+                          for R; then for every queried name (hex): <name>=<-|reg|sock>:<listener>:<lock holder>:<written by> *)
 open Model
 open Conv
 
 let name_s = function NLock -> "lock" | NSock -> "sock" | NPid -> "pid" | NSeed -> "seed"
 let prim_s = function
+  | ReadSeed -> "read_seed" | OpenPid -> "open_pid" | OpenSeed -> "open_seed"
   | OpenLock -> "open_lock" | FstatLock -> "fstat_lock" | SetLk -> "setlk"
   | Unlink n -> "unlink:" ^ name_s n | Bind -> "bind" | Listen -> "listen" | WritePid -> "write_pid"
   | Serve -> "serve" | CloseSock -> "close_sock" | CloseLock -> "close_lock" | WriteSeed -> "write_seed"
@@ -32,6 +33,7 @@ let rec run_toks s i = function
   | t :: r -> (match run s [label_of t] with Some s' -> run_toks s' (i + 1) r | None -> Error i)
 
 let cprim_s = function
+  | CReadSeed nm -> "read_seed:" ^ hex nm | COpenPid nm -> "open_pid:" ^ hex nm | COpenSeed nm -> "open_seed:" ^ hex nm
   | COpenLock nm -> "open_lock:" ^ hex nm | CFstatLock -> "fstat_lock" | CSetLk -> "setlk"
   | CUnlink nm -> "unlink:" ^ hex nm | CBind (r, nm) -> Printf.sprintf "bind:%d:%s" (if r then 1 else 0) (hex nm)
   | CListen -> "listen" | CWritePid nm -> "write_pid:" ^ hex nm | CServe -> "serve" | CCloseSock -> "close_sock"
@@ -69,9 +71,9 @@ let line l =
                   let ((st, pc), srv) = cobs_proc s (nat_of_int p) in
                   Printf.sprintf "%s/%d/%d" (status_s (int_of_nat st)) (int_of_nat pc) (b srv)) in
                 let q h = let nm = unhex h in
-                  Printf.sprintf "%s=%s:%s:%s" h
+                  Printf.sprintf "%s=%s:%s:%s:%s" h
                     (match cnames s nm with None -> "-" | Some _ -> if is_sock s nm then "sock" else "reg")
-                    (opt (name_listener s nm)) (opt (name_lock_holder s nm)) in
+                    (opt (name_listener s nm)) (opt (name_lock_holder s nm)) (opt (name_content s nm)) in
                 Printf.printf "C %s | %s\n" (String.concat " " procs) (String.concat " " (List.map q qs)))
        | _ -> Printf.printf "? %s\n" l)
   | ["P"] -> Printf.printf "P %s\n" (String.concat " " (List.map prim_s prog))
@@ -87,9 +89,9 @@ let line l =
              let ((st, pc), srv) = obs_proc s (nat_of_int p) in
              Printf.sprintf "%s/%d/%d" (status_s (int_of_nat st)) (int_of_nat pc) (b srv)) in
            let names = List.map2 (fun n o -> n ^ "=" ^ opt o) ["lock"; "sock"; "pid"; "seed"] (obs_names s) in
-           Printf.printf "R %s | %s | pidfile=%s listener=%s lockholder=%s\n"
+           Printf.printf "R %s | %s | pidfile=%s listener=%s lockholder=%s seedby=%s\n"
              (String.concat " " procs) (String.concat " " names)
-             (opt (pid_content s)) (opt (sock_listener s)) (opt (lock_holder s)))
+             (opt (pid_content s)) (opt (sock_listener s)) (opt (lock_holder s)) (opt (seed_content s)))
   | _ -> Printf.printf "? %s\n" l
 
 let () =
